@@ -4,6 +4,6 @@ Require Extraction.
 Require Import ExtrOcamlBasic.
 From Coq Require Import BinNums.
 From SWH.model Require Import Cli.
-Extraction "extract/C18/model.ml" identify_model spec spec_strict in_scope in_scope_literal designated known_deviation
-  identify_old_realpath identify_old_rectype identify_old_autolink identify_repaired all_cfgs nondefault
+Extraction "extract/C18/model.ml" identify_model spec spec_strict in_scope in_scope_literal designated
+  identify_old_realpath identify_old_rectype identify_old_autolink identify_old_recfollows all_cfgs nondefault
   (* number types that ocaml/conv.ml expects to see *) positive N Z.
